@@ -109,6 +109,7 @@ impl<T: UniPar> Check for ParCheck<T> {
                 .par_iter()
                 .map(|w| {
                     let mut seen: HashSet<String> = HashSet::new();
+                    let mut sigs: HashSet<String> = HashSet::new();
                     let mut found = Vec::new();
                     let mut drives = 0u64;
                     let mut fps = Vec::new();
@@ -135,7 +136,9 @@ impl<T: UniPar> Check for ParCheck<T> {
                                         let obs = e.observe();
                                         fps.push(obs.fingerprint());
                                         for v in (self.judge)(w, &obs) {
-                                            found.push((v, path()));
+                                            if sigs.insert(v.sig.clone()) {
+                                                found.push((v, path()));
+                                            }
                                         }
                                     }
                                 }
